@@ -396,7 +396,7 @@ def run(ctx):
     rng = ctx.rng('sequences')
     trng = ctx.rng('times')
     big = ctx.tier == 'thorough' or ctx.escalated
-    n_cases = 3000 if big else 118
+    n_cases = 3000 if big else 100
     cases = corpus()
     for i in range(n_cases):
         k = rng.random()
